@@ -4,6 +4,7 @@ import (
 	"time"
 
 	"github.com/karagenc/socket.io-go/internal/sync"
+	"github.com/karagenc/socket.io-go/internal/verifhook"
 
 	"github.com/karagenc/socket.io-go/engine.io/parser"
 )
@@ -29,6 +30,7 @@ func (pq *pollQueue) poll(pollTimeout time.Duration) []*parser.Packet {
 		return packets
 	}
 
+	verifhook.Yield("pollqueue-window")
 	select {
 	case <-pq.ready:
 		packets = pq.get()
